@@ -170,7 +170,7 @@ CONFIGS['lifecycle_quick_ac'] = dict(CONFIGS['lifecycle_quick'],
 # ------------------------------------------------------------------- events
 EVS = ['e_none', 'e_v', 'e_z', 'e_f', 'e_es', 'e_el', 'e_ed', 'e_h',
        'e_list', 'e_dict', 'e_tup0', 'e_tup1', 'e_tup2', 'e_bin', 'e_tbin',
-       'e_unh']
+       'e_ddb', 'e_unh']
 
 
 def events(cfg):
@@ -206,7 +206,8 @@ CONFIGS['events_t_class_bg'] = dict(_EV, max_sid=2, hkind='class',
 CONFIGS['events_quick'] = dict(_EV, max_sid=2, ns_h=['/', '/a'],
                                ns_all=['/', '/a'], ids=[-1, 0, 7],
                                evs=['e_none', 'e_v', 'e_z', 'e_el', 'e_h',
-                                    'e_tup2', 'e_bin', 'e_unh', 'e_raise'])
+                                    'e_tup2', 'e_bin', 'e_ddb', 'e_unh',
+                                    'e_raise'])
 CONFIGS['events_quick_bg'] = dict(CONFIGS['events_quick'],
                                   async_handlers=True, hkind='class')
 
@@ -412,6 +413,8 @@ def calls(cfg):
             durings.append([ack(t, id, [])])
             durings.append([ack(t, id, ['v1'])])
         durings.append([ack(t, 1, ['v1', 'v2'])])
+        durings.append([ack(t, 1, ['z0'])])       # one falsy value is a value
+        durings.append([ack(t, 1, ['el'])])
         durings.append([lost(t)])
         durings.append([lost(t), ack(t, 1, ['v1'])])
         durings.append([ack(t, 1, ['v1']), ack(t, 1, ['v2'])])
